@@ -643,6 +643,16 @@ impl Kernel {
     pub(crate) fn verif_table_mut(&mut self) -> &mut SocketTable {
         &mut self.sockets
     }
+
+    /// The next initial sequence number this host hands out (for `crate::verif`).
+    pub(crate) fn verif_tcp_isn(&self) -> u32 {
+        self.tcp_isn
+    }
+
+    /// Reposition the initial-sequence-number counter (for `crate::verif`).
+    pub(crate) fn verif_set_tcp_isn(&mut self, isn: u32) {
+        self.tcp_isn = isn;
+    }
 }
 
 impl Default for Kernel {
